@@ -1,7 +1,9 @@
 """C19 — command options are inherited exactly along the declared command graph (ak/cli_tools.py).
 
 A case is one ArgParser: `new` (construction), `deps` (internal dependents map, diagnostic),
-`opt` lines (add_argument on the ArgParser `*` or on one command parser) and `parse` lines.
+`opt` lines (add_argument on the ArgParser `*` or on one command parser; `optg`: through a group object of a command
+parser) and `parse` lines (`parse` fresh list, `parset` tuple, `parse2` the same list object twice, `parsev` sys.argv,
+`lst` the caller's list after the call).
 """
 import ast
 import contextlib
@@ -19,13 +21,14 @@ THEOREMS = [
     "C19.std_shape", "C19.decl_syntax",
     "C19.closure", "C19.build_ok_iff", "C19.declare_order_irrelevant", "C19.declare_follows_code",
     "C19.options_iff", "C19.strings_iff", "C19.added_to_all", "C19.add_ok_iff",
-    "C19.command_dispatch", "C19.parse_accepts", "C19.parse_rejects", "C19.parse_rejects_short",
+    "C19.command_dispatch", "C19.parse_accepts", "C19.table_unique", "C19.info_inherited", "C19.info_accepted",
+    "C19.parse_rejects", "C19.parse_rejects_short",
     "C19.abbrev_unique", "C19.abbrev_ambiguous", "C19.accepts_iff", "C19.std_accepted",
     "C19.verbose_cluster", "C19.dd_words", "C19.required_enforced",
-    "C19.default_is_first_public", "C19.default_cmd_partial", "C19.default_cmd_full_if_public_test",
-    "C19.internal_name_gap",
-    "C19.parse_twice", "C19.no_log_file_attr", "C19.help_if_no_args", "C19.single_mode",
-    "C19.default_cmd_internal_name_counterexample",
+    "C19.default_is_first_public", "C19.default_cmd_partial", "C19.default_cmd_option_first",
+    "C19.default_cmd_full_if_public_test", "C19.internal_name_gap",
+    "C19.caller_sequence_untouched", "C19.parse_twice", "C19.no_log_file_attr", "C19.help_if_no_args", "C19.single_mode",
+    "C19.default_cmd_internal_name_counterexample", "C19.group_option_not_inherited_counterexample",
 ]
 RULE = ("one case = one ArgParser: declarations (chains, forests, diamonds, dense DAGs, two arms with a late declared ancestor, "
         "parent chains and ladders 50 / 300 / 1200 (thorough: 2500) commands deep, "
@@ -34,16 +37,21 @@ RULE = ("one case = one ArgParser: declarations (chains, forests, diamonds, dens
         "parent list; malformed: unknown/forward/self parents, duplicate and empty names, no commands, all internal, bad "
         "default), constructor switches _no_log/_no_log_file/_help_if_no_args, 0-8 add_argument calls (ArgParser itself, public "
         "and internal parsers, unknown command; flags, store_false, store_const, value options (also with a default string or a "
-        "default object, sys.stdout), required=True options on the ArgParser / parsers / internal sets with argv that supplies "
+        "default object, sys.stdout; type=int with integer / non-integer arguments, choices=[...] with members / non-members), "
+        "action='version' (4 texts) and action='help' options under any names on internal sets, parents, leaves and the "
+        "ArgParser (stream `info` + 4% of all options; SystemExit status and the printed version text are compared), option "
+        "names that tools conventionally treat specially (--version, --about, --usage, --debug, -V …), required=True options on the ArgParser / parsers / internal sets with argv that supplies "
         "them or not, explicit dest=, families of "
         "options storing into one attribute placed on one parser / parent and child / ArgParser and parser, positionals with "
         "nargs absent/?/*/+; option strings that "
         "are prefixes of each other and of the standard ones; a stream with conflicting strings; a stream where the default "
         "command takes free words), then argv per (public command, option string) plus random argv (abbreviations, -xyz "
         "clusters with attached values, --opt=value, --, '', '-', negative numbers, std options and their abbreviations, "
-        "unknown options, no command name, first words inside '-h--help', -h), 15% of them parsed twice from the same list "
-        "object, 12% also through parse_args() with sys.argv set, "
-        "object; the single-command ArgParser (6%); cases with an internal name first (known finding); every strip() "
+        "unknown options, no command name, up to 3 argv per case that START with a declared option string, first words inside "
+        "'-h--help', -h); argv kind: fresh list 75%, the same list object twice 15%, tuple 10%; 12% also through parse_args() "
+        "with sys.argv set, 8% followed by the caller's list after the call (must be unchanged); "
+        "the single-command ArgParser (6%); 10 cases (thorough 40) adding an option through a group object of a command "
+        "parser (mutually exclusive / plain, known finding), generated last; cases with an internal name first (known finding); every strip() "
         "candidate character. non-trivial = a successfully built multi-command parser with >= 1 parent edge, >= 1 option "
         "added to a command parser and >= 2 parse lines; distinct by protocol text")
 TRUSTED = ["argparse 3.12 (the scan of one parser is a modelled function: exact strings, abbreviations, -xyz, --opt=value, "
@@ -52,7 +60,7 @@ ASSUMPTIONS = ["option strings are `-x` or `--name…`, distinct within one add_
                "request: `bad-op` otherwise)",
                "at most one positional per parser unless all are nargs='*' (the model answers `ood` otherwise; generator keeps to it)",
                "argv strings are fresh objects (argparse's mutual-exclusion test compares values with `is`)",
-               "after a failed add_argument the ArgParser object is abandoned (both sides answer `poisoned`)"]
+               "one option per group object (a mutually exclusive group with a single member excludes nothing)"]
 
 HELP_FIRST_DEFAULT = ["-h", "--help"]
 
@@ -169,11 +177,20 @@ def _read_source(repo):
         all_parsers = False
     else:
         raise ValueError("first argument is compared with an unknown collection self.%s" % attr)
-    return std, add_help, help_first, all_parsers
+    # --- parse_args: does it work on a private copy (`args = list(args)`)?
+    copies = False
+    for node in ast.walk(fns["parse_args"]):
+        if (isinstance(node, ast.Assign) and len(node.targets) == 1 and isinstance(node.targets[0], ast.Name)
+                and node.targets[0].id == "args" and isinstance(node.value, ast.Call)
+                and isinstance(node.value.func, ast.Name) and node.value.func.id in ("list",)
+                and len(node.value.args) == 1 and isinstance(node.value.args[0], ast.Name)
+                and node.value.args[0].id == "args" and not node.value.keywords):
+            copies = True
+    return std, add_help, help_first, all_parsers, copies
 
 
 def translate(repo):
-    std, add_help, help_first, all_parsers = _read_source(repo)
+    std, add_help, help_first, all_parsers, copies = _read_source(repo)
 
     def table(no_log):
         specs = []
@@ -194,10 +211,10 @@ def translate(repo):
             "def std : List OptSpec := [\n  %s ]\n"
             "/-- the same when `_no_log=True` (the calls under `if not self._no_log:` are skipped) -/\n"
             "def stdNoLog : List OptSpec := [\n  %s ]\n"
-            "/-- `for choices in [[...], self.<collection>]` in `parse_args` -/\n"
-            "def cfg : Cfg := { std := std, stdNoLog := stdNoLog, helpFirst := %s, allParsers := %s }\n"
+            "/-- `for choices in [[...], self.<collection>]` and `args = list(args)` in `parse_args` -/\n"
+            "def cfg : Cfg := { std := std, stdNoLog := stdNoLog, helpFirst := %s, allParsers := %s, copiesArgs := %s }\n"
             "end Gen.C19\n" % (table(False), table(True), _lean_list([_lean_str(s) for s in help_first]),
-                               "true" if all_parsers else "false"))
+                               "true" if all_parsers else "false", "true" if copies else "false"))
     return {"AkVerif/Gen/C19.lean": body}
 
 
@@ -250,10 +267,27 @@ def _required(kind):
 OBJ = "<obj>"          # stands for a default that is an object (sys.stdout), not a value
 
 
+def _payload(kind):
+    """the text behind '=' in 'const=V', 'value=D', 'version=V', 'cvalue=A/B'"""
+    return kind.partition("@")[0].rstrip("!").partition("=")[2]
+
+
+def _choices(kind):
+    return [dec_str(x) for x in _payload(kind).split("/")]
+
+
 def _opt_kwargs(kind):
     base, dest = _kind_parts(kind)
     if base.startswith("pos"):
         kw = dict(POS_KW[base])
+    elif base == "help":
+        kw = {"action": "help"}
+    elif base.startswith("version="):
+        kw = {"action": "version", "version": dec_str(base[8:])}
+    elif base == "ivalue":
+        kw = {"type": int}
+    elif base.startswith("cvalue="):
+        kw = {"choices": _choices(kind)}
     elif base == "flag":
         kw = {"action": "store_true"}
     elif base == "flagoff":
@@ -319,16 +353,24 @@ class _Session:
         self.p = None
         self.poisoned = False
 
-    def parse_list(self, lst):
+    def run(self, call):
         err, out = io.StringIO(), io.StringIO()
         try:
             with contextlib.redirect_stderr(err), contextlib.redirect_stdout(out):
-                ns = self.p.parse_args(lst)
+                ns = call()
             return "ok " + _show_ns(ns)
         except SystemExit as e:
+            if e.code == 0:
+                # status 0: something was printed on request. The usage text (help) or a version text.
+                body = "\n".join(l for l in out.getvalue().split("\n") if l != "appending help option").strip()
+                if not body.startswith("usage:"):
+                    return "err SystemExit 0 V:" + enc_str(body[:40])
             return "err SystemExit %s" % (e.code,)
         except Exception as e:
             return "err " + type(e).__name__
+
+    def parse_list(self, lst):
+        return self.run(lambda: self.p.parse_args(lst))
 
     def parse(self, toks):
         return self.parse_list([_fresh(t) for t in toks])
@@ -360,12 +402,19 @@ class _Session:
                 return "deps"
             return " ".join(["deps"] + ["%s:%s" % (enc_str(n), "/".join(enc_str(d) for d in q._dependent_parsers))
                                         for n, q in self.p.command_parsers.items()])
-        if op == "opt":
+        if op in ("opt", "optg"):
+            grp = None
+            if op == "optg":
+                grp, args = args[1], [args[0]] + args[2:]
             target, kind = args[0], args[1]
             strs = [dec_str(a) for a in args[2:] if not a.startswith("+")]
             extra = _extra_kwargs([a for a in args[2:] if a.startswith("+")])
             try:
                 obj = self.p if target == "*" else self.p.get_cmd_parser(dec_str(target))
+                if grp == "mutex":
+                    obj = obj.add_mutually_exclusive_group()      # argparse's own group object
+                elif grp == "plain":
+                    obj = obj.add_argument_group()
             except (ValueError, AssertionError) as e:
                 return "err " + type(e).__name__
             kw = _opt_kwargs(kind)
@@ -378,20 +427,14 @@ class _Session:
                 return "err " + type(e).__name__
         if op == "parse":
             return self.parse([dec_str(a) for a in args])
+        if op == "parset":
+            return self.parse_list(tuple(_fresh(dec_str(a)) for a in args))      # any sequence will do
         if op == "parsev":
             # the documented way to run a script: parse_args() reads sys.argv
             old = sys.argv
             sys.argv = ["x"] + [_fresh(dec_str(a)) for a in args]
             try:
-                err, out = io.StringIO(), io.StringIO()
-                try:
-                    with contextlib.redirect_stderr(err), contextlib.redirect_stdout(out):
-                        ns = self.p.parse_args()
-                    return "ok " + _show_ns(ns)
-                except SystemExit as e:
-                    return "err SystemExit %s" % (e.code,)
-                except Exception as e:
-                    return "err " + type(e).__name__
+                return self.run(lambda: self.p.parse_args())
             finally:
                 sys.argv = old
         if op == "parse2":
@@ -401,7 +444,7 @@ class _Session:
             return "%s | %s" % (r1, r2)
         if op == "lst":
             lst = [_fresh(dec_str(a)) for a in args]
-            self.parse_list(lst)               # what the call leaves in the caller's list (diagnostic)
+            self.parse_list(lst)               # what the call leaves in the caller's list
             return "L:" + "/".join("N" if x is None else enc_str(x) for x in lst)
         return "bad-op"
 
@@ -414,8 +457,7 @@ def impl(case):
 def observable(i, line):
     # the dependents map is internal; add_argument's own outcome is not named by observe_at
     # (its effect is observed by the parse lines that follow)
-    # the caller's list after the call (`lst`) is not named by observe_at either
-    return not (line.startswith("deps") or line.startswith("opt ") or line.startswith("lst"))
+    return not (line.startswith("deps") or line.startswith("opt ") or line.startswith("optg "))
 
 
 # ------------------------------------------------------------------ oracle: the property itself
@@ -477,7 +519,32 @@ def _std_specs(no_log):
 
 def _base(kind):
     b = kind.partition("@")[0].rstrip("!")
-    return "value" if b.startswith("value=") else b
+    for p in ("value=", "version=", "cvalue="):
+        if b.startswith(p):
+            return p[:-1]
+    return b
+
+
+VALUE_KINDS = ("value", "ivalue", "cvalue")
+INFO_KINDS = ("help", "version")
+
+
+def _info_text(kind):
+    """the text an accepted help / version option prints before SystemExit(0): None for help (the usage text)"""
+    return dec_str(_payload(kind)) if _base(kind) == "version" else None
+
+
+def _convert(kind, raw):
+    """(accepted, stored value) for the argument `raw` of a value option: type=int, choices=[...]"""
+    b = _base(kind)
+    if b == "ivalue":
+        try:
+            return True, int(raw)
+        except ValueError:
+            return False, None
+    if b == "cvalue":
+        return raw in _choices(kind), raw
+    return True, raw
 
 
 def _value_default(kind):
@@ -518,16 +585,51 @@ def _resolve(t, table):
     return "word" if _is_word(t) else "unknown"
 
 
+REJ = ("exit", "rej")        # refused: SystemExit with a non-zero status
+ANY = ("exit", None)         # some SystemExit
+
+
+def _is_info(spec):
+    return _base(spec[1]) in INFO_KINDS
+
+
+def _may_info(rest, table):
+    """could some token before '--' be read as a help / version option (exactly, with '=value', inside -xyz)?"""
+    for t in rest:
+        if t == "--":
+            break
+        if not t.startswith("-") or t == "-":
+            continue
+        for cand in (t, t.partition("=")[0]):
+            if cand in table and _is_info(table[cand]):
+                return True
+        if not t.startswith("--"):
+            for c in t[1:]:
+                if "-" + c in table and _is_info(table["-" + c]):
+                    return True
+    return False
+
+
 def _expect(rest, acc):
     """what the statement implies for the arguments `rest` of a command whose option table is `acc`
-    (list of (strings, kind), the standard ones included): ('exit',) | ('ns', dict) | None (no claim).
-    Everything argparse refuses (unknown or ambiguous option, missing or unwanted value, bad colour,
-    --color with --no-color, words nobody takes, a missing required positional) and help end in SystemExit."""
+    (list of (strings, kind), the standard ones included): ('ns', dict) | ('exit', 0, text) | REJ | ANY | None (no claim).
+    An accepted help / version option prints and ends with status 0 (text: the version text, None for help) — the
+    options before it have been handled, what follows is not looked at. Everything argparse refuses (unknown or
+    ambiguous option, missing or unwanted or unconvertible value, bad choice, --color with --no-color, words nobody
+    takes, a missing required option or positional) ends in SystemExit with a non-zero status; where a refusal and a
+    help / version option meet in one argument list only 'some SystemExit' is claimed."""
     table = {}
     for spec in acc:
         if not spec[1].startswith("pos"):
             for s in spec[0]:
                 table[s] = spec
+    r = _expect0(rest, acc, table)
+    if r == REJ and _may_info(rest, table):
+        return ANY
+    return r
+
+
+def _expect0(rest, acc, table):
     poss = [spec for spec in acc if spec[1].startswith("pos")]
     if len(poss) > 1:
         return None                       # several positionals: argparse's own business
@@ -540,7 +642,7 @@ def _expect(rest, acc):
             ns.setdefault(d, False)
         elif b == "flagoff":
             ns.setdefault(d, True)
-        elif b == "value" or b.startswith("const="):
+        elif b in VALUE_KINDS or b.startswith("const="):
             ns.setdefault(d, _value_default(kind))
         elif b == "count":
             ns.setdefault(d, 0)
@@ -552,7 +654,6 @@ def _expect(rest, acc):
             break
         if _resolve(t, table) == "abbreviation":
             return None
-    EXIT = ("exit",)
     required = [sp for sp in acc if _required(sp[1])]
     given = []
     color_seen = nocolor_seen = False
@@ -566,6 +667,24 @@ def _expect(rest, acc):
             cur = []
             runs.append(cur)
         cur.append((tok, dash))
+
+    def noarg(sp):
+        b = _base(sp[1])
+        return b in ("flag", "flagoff", "nocolor", "count", "help", "version") or b.startswith("const=")
+
+    def act(sp):
+        nonlocal nocolor_seen
+        dd_, b = _dest(*sp), _base(sp[1])
+        if b == "flag":
+            ns[dd_] = True
+        elif b == "flagoff":
+            ns[dd_] = False
+        elif b.startswith("const="):
+            ns[dd_] = dec_str(b[6:])
+        elif b == "nocolor":
+            nocolor_seen = True
+        elif b == "count":
+            ns[dd_] = (ns.get(dd_) or 0) + 1 if isinstance(ns.get(dd_) or 0, int) else ns.get(dd_)
 
     while i < len(rest):
         t = rest[i]
@@ -583,60 +702,46 @@ def _expect(rest, acc):
             continue
         cur = None
         if r == "unknown":
-            return EXIT
+            return REJ                    # reported at the end of the scan (`_expect` weakens this when help may follow)
         spec, single, att = r
         # -xyz: options without argument are peeled off, one character each
         todo = []
-        def noarg(sp):
-            b = _base(sp[1])
-            return b in ("flag", "flagoff", "nocolor", "count", "help") or b.startswith("const=")
-
-        def act(sp):
-            nonlocal nocolor_seen
-            dd_, b = _dest(*sp), _base(sp[1])
-            if b == "flag":
-                ns[dd_] = True
-            elif b == "flagoff":
-                ns[dd_] = False
-            elif b.startswith("const="):
-                ns[dd_] = dec_str(b[6:])
-            elif b == "nocolor":
-                nocolor_seen = True
-            elif b == "count":
-                ns[dd_] = (ns.get(dd_) or 0) + 1 if isinstance(ns.get(dd_) or 0, int) else ns.get(dd_)
-
         while att is not None and single and noarg(spec):
             if att == "":
-                return EXIT
+                return REJ
             todo.append(spec)
             nxt = "-" + att[0]
             if nxt not in table:
-                return EXIT
+                return REJ
             spec, att = table[nxt], (att[1:] or None)
-        for sp in todo + [spec]:
-            if sp[1] == "help":
-                return EXIT
-        if att is not None and not single and noarg(spec):
-            return EXIT
-        for sp in todo:
-            act(sp)
-        given.extend(todo + [spec])
-        strs, kind = spec
-        d = _dest(strs, kind)
-        kind = _base(kind)
+        # the token is matched as a whole before any of its actions runs
+        if att is not None and noarg(spec):
+            return REJ                    # --flag=value
+        kind = _base(spec[1])
         nxt_is_word = i < len(rest) and rest[i] != "--" and _resolve(rest[i], table) == "word"
+        if kind in VALUE_KINDS and att is None and not nxt_is_word:
+            return REJ                    # expected one argument
+        # the actions, in order
+        for sp in todo:
+            if _is_info(sp):
+                return ("exit", 0, _info_text(sp[1]))
+            act(sp)
+        if _is_info(spec):
+            return ("exit", 0, _info_text(spec[1]))
+        given.extend(todo + [spec])
+        d = _dest(*spec)
         if noarg(spec):
-            if att is not None:
-                return EXIT
             act(spec)
-        elif kind == "value":
+        elif kind in VALUE_KINDS:
             if att is not None:
-                ns[d] = att
-            elif nxt_is_word:
-                ns[d] = rest[i]
-                i += 1
+                raw = att
             else:
-                return EXIT
+                raw = rest[i]
+                i += 1
+            ok, val = _convert(spec[1], raw)
+            if not ok:
+                return REJ                # invalid int value / invalid choice
+            ns[d] = val
         elif kind == "color":
             color_seen = True
             if att is not None:
@@ -647,15 +752,15 @@ def _expect(rest, acc):
             else:
                 v = None
             if v is not None and v not in COLOR_CHOICES:
-                return EXIT
+                return REJ
             ns[d] = v
         if color_seen and nocolor_seen:
-            return EXIT
+            return REJ
     if any(sp not in given for sp in required):
-        return EXIT                       # a required option of this command was not supplied
+        return REJ                        # a required option of this command was not supplied
     # the words
     if len(runs) > 1 or (runs and not poss):
-        return EXIT
+        return REJ
     if poss:
         strs, kind = poss[0]
         run = runs[0] if runs else []
@@ -667,15 +772,15 @@ def _expect(rest, acc):
             ns[strs[0]] = words
         elif kind == "pos+":
             if not words:
-                return EXIT
+                return REJ
             ns[strs[0]] = words
         elif kind == "pos1":
             if len(words) != 1:
-                return EXIT
+                return REJ
             ns[strs[0]] = words[0]
         else:
             if len(words) > 1:
-                return EXIT
+                return REJ
             ns[strs[0]] = words[0] if words else None
     if nocolor_seen:
         ns.pop("color", None)             # what --no-color does to `color` is the code's choice, not the statement's
@@ -702,7 +807,9 @@ def _ns_mismatch(cmd, ns, rep):
     return None
 
 
-def oracle(case, replies):
+def oracle(case, replies, group_local=False):
+    """`group_local=True` states the property with options added through a group object taken as local to the
+    parser that owns the group (what the code does, known finding group_options_not_inherited); used by the matcher"""
     lines = case["lines"]
     if not lines or not lines[0].startswith("new "):
         return None                       # the single-command ArgParser is outside the statement: tie only
@@ -725,6 +832,9 @@ def oracle(case, replies):
     alive = True
     for line, rep in zip(lines[1:], replies[1:]):
         op, *a = line.split()
+        via_group = op == "optg"
+        if via_group:
+            op, a = "opt", [a[0]] + a[2:]          # an option added to a command's parser, through one of its groups
         if op == "opt" and alive:
             target = None if a[0] == "*" else dec_str(a[0])
             kind, strs = a[1], [dec_str(x) for x in a[2:] if not x.startswith("+")]
@@ -734,7 +844,7 @@ def oracle(case, replies):
             if not _plain_argparse_accepts(kind, strs, extra_toks):
                 alive = False                          # argparse itself refuses this declaration: no claim
                 continue
-            recv = [n for n in names if target is None or n == target or target in anc[n]]
+            recv = [n for n in names if target is None or n == target or (target in anc[n] and not (via_group and group_local))]
             conflict = not kind.startswith("pos") and any(
                 s in strs for n in recv for ss, k in has[n] if not k.startswith("pos") for s in ss)
             if conflict or rep != "ok":
@@ -745,7 +855,12 @@ def oracle(case, replies):
                 continue
             for n in recv:
                 has[n].append((strs, kind))
-        elif op in ("parse", "parse2", "parsev") and alive:
+        elif op == "lst" and alive:
+            argv = [dec_str(x) for x in a]
+            want = "L:" + "/".join(enc_str(x) for x in argv)
+            if rep != want:
+                return "caller-list: parse_args(%r) left the caller's list as %s" % (argv, rep)
+        elif op in ("parse", "parse2", "parsev", "parset") and alive:
             argv = [dec_str(x) for x in a]
             if op == "parse2":
                 parts = rep.split(" | ")
@@ -777,7 +892,7 @@ def oracle(case, replies):
                     # known finding c19b, and nothing else: the first word is the name of an internal '!' option
                     # set, the code exits with 'invalid choice' and the default command would have accepted it (or shown its help)
                     c19b = (first in names and first not in public and rep == "err SystemExit 2"
-                            and (want.startswith("ok ") or want == "err SystemExit 0"))
+                            and (want.startswith("ok ") or want.startswith("err SystemExit 0")))
                     kind = "default-internal-name" if c19b else "default-command"
                     return "%s: %r -> %s but %r -> %s" % (kind, argv, rep, [dflt] + argv, want)
                 cmd, rest = dflt, argv
@@ -789,6 +904,14 @@ def oracle(case, replies):
             if exp[0] == "exit":
                 if not rep.startswith("err SystemExit"):
                     return "rejects: command %r must reject %r, got %s" % (cmd, rest, rep)
+                if exp[1] == "rej" and rep.split()[2:3] == ["0"]:
+                    return "rejects: command %r must reject %r (non-zero status), got %s" % (cmd, rest, rep)
+                if exp[1] == 0:
+                    want = "err SystemExit 0" + ("" if exp[2] is None else " V:" + enc_str(exp[2]))
+                    if rep != want:
+                        return "accepts: command %r has the %s option in %r: it must print %s and exit with status 0, got %s" % (
+                            cmd, "help" if exp[2] is None else "version", rest,
+                            "its help" if exp[2] is None else repr(exp[2]), rep)
             else:
                 bad = _ns_mismatch(cmd, exp[1], rep)
                 if bad:
@@ -801,7 +924,16 @@ def _is_c19b(case):
     return msg is not None and msg.startswith("default-internal-name")
 
 
-KNOWN = {"c19b_internal_name_as_command": _is_c19b}
+def _is_group_finding(case):
+    """the failure is there, the case adds an option through a group object, and nothing is wrong once such options
+    are read as local to the parser owning the group"""
+    if not any(l.startswith("optg ") for l in case["lines"]):
+        return False
+    rep = impl(case)
+    return oracle(case, rep) is not None and oracle(case, rep, group_local=True) is None
+
+
+KNOWN = {"c19b_internal_name_as_command": _is_c19b, "group_options_not_inherited": _is_group_finding}
 
 
 # ------------------------------------------------------------------ generators
@@ -811,8 +943,13 @@ NAMES = ["a", "b", "c", "d", "e", "f", "g", "run", "build", "cmd1", "cmd10", "x_
          "hel", "l", "p", "options", "opt"]
 # option strings with abbreviation structure (prefixes of each other and of the standard ones)
 LONGS = ["--fa", "--fb", "--gc", "--gd", "--alpha", "--alp", "--beta", "--dry-run", "--dry", "--x", "--out", "--output",
-         "--in-dir", "--arg-one", "--arg-two", "--arg", "--col", "--verb", "--no", "--he", "--colors"]
-SHORTS = ["-a", "-b", "-d", "-e", "-o", "-q", "-f", "-g"]
+         "--in-dir", "--arg-one", "--arg-two", "--arg", "--col", "--verb", "--no", "--he", "--colors",
+         # names that command line tools conventionally give a meaning of their own
+         "--version", "--about", "--usage", "--build-info", "--debug", "--quiet", "--config", "--num", "--level"]
+SHORTS = ["-a", "-b", "-d", "-e", "-o", "-q", "-f", "-g", "-V", "-n", "-Q"]
+VERSIONS = ["1.0", "tool-1.2", "v7", "2024.03-rc1"]
+CHOICE_SETS = [["lo", "hi"], ["a", "b", "c"], ["1", "2"], ["never", "w1"]]
+INTWORDS = ["5", "-3", "007", "1_0", "0", "12", "42", "x1", "3x", "1_", "w"]
 POS = ["items", "files"]
 WORDS = ["w", "w1", "zz", "always", "never", "auto", "0", "x=y", "items", "-", "", "-1", "-42", "h", "help", "e"]
 UNKNOWN = ["--zz", "-z", "--unknown", "--zz=1", "-zf", "--z"]
@@ -913,11 +1050,22 @@ def _spec(rng):
         if rng.random() < 0.3:
             strs.reverse()
     r = rng.random()
-    if r < 0.55:
+    if r < 0.48:
         return "flag", strs
-    if r < 0.62:
+    if r < 0.55:
         return "value=" + enc_str(rng.choice([OBJ, OBJ, "dflt", ""]) or "d"), strs      # default= an object / a string
+    if r < 0.61:
+        return "ivalue", strs                                                           # type=int
+    if r < 0.67:
+        return "cvalue=" + "/".join(enc_str(c) for c in rng.choice(CHOICE_SETS)), strs  # choices=[...]
+    if r < 0.71:
+        return _info_kind(rng), strs
     return "value", strs
+
+
+def _info_kind(rng):
+    """action='version' (with its text) or action='help'"""
+    return "version=" + enc_str(rng.choice(VERSIONS)) if rng.random() < 0.6 else "help"
 
 
 def _abbrev(rng, s):
@@ -930,8 +1078,12 @@ def _abbrev(rng, s):
 def _use(rng, kind, s):
     if s.startswith("--") and rng.random() < 0.25:
         s = _abbrev(rng, s)
-    if _base(kind) == "value":
+    if _base(kind) in VALUE_KINDS:
         w = rng.choice(WORDS[:5])
+        if _base(kind) == "ivalue":
+            w = rng.choice(INTWORDS)
+        elif _base(kind) == "cvalue":
+            w = rng.choice(_choices(kind) * 3 + WORDS[:3])
         if s.startswith("--"):
             return [s + "=" + w] if rng.random() < 0.4 else [s, w]
         r = rng.random()
@@ -941,14 +1093,14 @@ def _use(rng, kind, s):
 
 def _cluster(rng, shorts):
     """-xyz built from the short options in play (flags first, maybe a value option last) and -v"""
-    flags = [s for k, s in shorts if _base(k) != "value"] + ["-v"]
-    vals = [s for k, s in shorts if _base(k) == "value"]
+    flags = [s for k, s in shorts if _base(k) not in VALUE_KINDS] + ["-v"]
+    vals = [s for k, s in shorts if _base(k) in VALUE_KINDS]
     t = "-" + "".join(rng.choice(flags)[1] for _ in range(rng.choice([1, 2, 2, 3])))
     if vals and rng.random() < 0.4:
         t += rng.choice(vals)[1]
         if rng.random() < 0.5:
-            return [t + rng.choice(["x", "w1", "=y"])]
-        return [t, rng.choice(WORDS[:4])]
+            return [t + rng.choice(["x", "w1", "=y", "7", "lo"])]
+        return [t, rng.choice(WORDS[:4] + ["7", "lo"])] if rng.random() < 0.85 else [t]
     if rng.random() < 0.15:
         t += rng.choice(["z", "h", "-", "=1"])
     return [t]
@@ -960,15 +1112,21 @@ def _extras(rng, kind):
         return ""
     out = [rng.choice(["+help=text", "+help=none", "+help=none", "+help=suppress", "+help=empty"])]
     b = _base(kind)
-    if (b == "value" or kind.startswith("pos")) and rng.random() < 0.5:
-        out.append(rng.choice(["+metavar", "+type", "+choices"]))
+    if (b in VALUE_KINDS or kind.startswith("pos")) and rng.random() < 0.5:
+        out.append("+metavar")          # type= / choices= are kinds of their own (ivalue, cvalue): observable
     if b in ("value", "flag") and "=" not in kind.partition("@")[0] and rng.random() < 0.15 and b == "value":
         out.append("+default=none")
     return " " + " ".join(out)
 
 
-def _parse_line(argv, twice=False):
-    return " ".join(["parse2" if twice else "parse"] + [enc_str(t) for t in argv])
+def _parse_line(argv, twice=False, op=None):
+    return " ".join([op or ("parse2" if twice else "parse")] + [enc_str(t) for t in argv])
+
+
+def _argv_kind(rng):
+    """how the argument vector reaches parse_args: a fresh list, the same list object twice, a tuple"""
+    r = rng.random()
+    return "parse2" if r < 0.15 else "parset" if r < 0.25 else "parse"
 
 
 CTOR_FAILS = ("unknown-parent", "forward", "self", "dup", "empty", "empty-internal", "no-commands")
@@ -1064,9 +1222,22 @@ def _gen_case(rng, tier, stream):
             kind, strs = _spec(rng)
             if kind.startswith("pos") or any(x in used for x in strs):
                 continue
-            kind = _req("value" if _base(kind) == "value" else rng.choice(["value", kind]))
+            kind = _req("value" if _base(kind) in ("value",) + INFO_KINDS else rng.choice(["value", kind]))
             r = rng.random()
             target = "*" if r < 0.4 else enc_str(rng.choice(internal)) if r < 0.6 and internal else enc_str(rng.choice(names))
+            used |= set(strs)
+            placed.append((target, kind, strs))
+            lines.append("opt %s %s%s %s" % (target, kind, _extras(rng, kind), " ".join(enc_str(s) for s in strs)))
+    if stream == "info":
+        # help / version actions on owners that have dependents (internal sets, parents), on leaves and on the ArgParser
+        owners = [d[0] for d in decls if any(d[0] in e[2] for e in decls)]
+        for _ in range(rng.choice([1, 2, 2, 3])):
+            _, strs = _spec(rng)
+            if strs[0] in POS or any(x in used for x in strs):
+                continue
+            r = rng.random()
+            target = "*" if r < 0.15 else enc_str(rng.choice(owners)) if r < 0.8 and owners else enc_str(rng.choice(names))
+            kind = _info_kind(rng)
             used |= set(strs)
             placed.append((target, kind, strs))
             lines.append("opt %s %s%s %s" % (target, kind, _extras(rng, kind), " ".join(enc_str(s) for s in strs)))
@@ -1114,6 +1285,10 @@ def _gen_case(rng, tier, stream):
         argvs.append(supply())
     for c in public[:4]:
         argvs.append([c] + [rng.choice(STD_TOKS)])
+    # an option in front (no command name): whatever the option is called, the default command gets it
+    firsts = [(kind, s) for (_, kind, strs) in placed if not kind.startswith("pos") for s in strs]
+    for kind, s in rng.sample(firsts, min(len(firsts), 3)):
+        argvs.append(_use(rng, kind, s) + ([rng.choice(WORDS + STD_TOKS)] if rng.random() < 0.3 else []))
     argvs.append([])
     # random argv
     toks_opt = [(kind, s) for (_, kind, strs) in placed if not kind.startswith("pos") for s in strs]
@@ -1169,7 +1344,7 @@ def _gen_case(rng, tier, stream):
         if k in seen:
             continue
         seen.add(k)
-        lines.append(_parse_line(argv, twice=rng.random() < 0.15))
+        lines.append(_parse_line(argv, op=_argv_kind(rng)))
         r = rng.random()
         if r < 0.08:
             lines.append(" ".join(["lst"] + [enc_str(t) for t in argv]))
@@ -1223,7 +1398,7 @@ def _gen_single(rng, tier):
     for argv in argvs:
         if tuple(argv) not in seen:
             seen.add(tuple(argv))
-            lines.append(_parse_line(argv, twice=rng.random() < 0.2))
+            lines.append(_parse_line(argv, op=_argv_kind(rng)))
             r = rng.random()
             if r < 0.1:
                 lines.append(" ".join(["lst"] + [enc_str(t) for t in argv]))
@@ -1266,7 +1441,55 @@ def corpus():
     out.append(case(["log", "log-all:log", "lo", "all:lo"], [("log", "flag", ["--fa"]), ("lo", "flag", ["--fb"]), ("log", "pos*", ["items"])],
                     [["all", "--fa"], ["all", "--fb"], ["log-all", "--fb"], ["log-all", "--fa"], ["-"], ["--"], [""], ["h"], ["help"],
                      ["--", "x"], ["-", "x"], ["e", "l", "p"]], kind="corpus-names"))
+    # help / version actions on an internal set and on a parent: children and grandchildren print and exit 0
+    c = case(["!meta", "build:meta", "deploy:build", "clean"], [],
+             [["build", "--about"], ["deploy", "-V"], ["deploy", "--usage"], ["deploy", "--build-info"], ["build", "--build-info"],
+              ["clean", "--about"], ["deploy", "-V", "--zz"], ["deploy", "--zz", "--usage"], ["deploy", "--jobs", "3", "-V"],
+              ["deploy", "--jobs", "x", "-V"], ["--about"]], kind="corpus-info")
+    c["lines"][2:2] = ["opt %s version=%s %s %s" % (enc_str("meta"), enc_str("tool-1.2"), enc_str("-V"), enc_str("--about")),
+                       "opt %s help +help=text %s" % (enc_str("meta"), enc_str("--usage")),
+                       "opt %s ivalue %s" % (enc_str("meta"), enc_str("--jobs")),
+                       "opt %s version=%s %s" % (enc_str("build"), enc_str("v7"), enc_str("--build-info"))]
+    out.append(c)
+    # an option in front, called like something tools treat specially: still the default command's option
+    out.append(case(["run", "build:run"], [("run", "flag", ["--version"]), ("*", "flag", ["--about"]), ("build", "flag", ["--usage"])],
+                    [["--version"], ["--about"], ["--usage"], ["--version", "--about"], ["build", "--version"], ["--ver"]],
+                    kind="corpus-option-first"))
+    # any sequence is taken and the caller's object is left alone (6b8603f): tuple, the same list twice, the list afterwards
+    c = case(["a", "b:a"], [("a", "flag", ["--fa"]), ("a", "pos*", ["items"])], [], kind="corpus-argv-kinds")
+    for op, argv in (("parset", ["--fa"]), ("parset", []), ("parset", ["w"]), ("parset", ["b", "--fa"]), ("lst", ["--fa"]), ("lst", []),
+                     ("lst", ["b"]), ("parse2", ["--fa", "w"]), ("parse2", []), ("parsev", ["--fa"])):
+        c["lines"].append(_parse_line(argv, op=op))
+    out.append(c)
+    c = {"lines": ["new 001 - 97 " + enc_str("b:a"), "parset", "lst", "parse2", "single 001", "parset", "lst"],
+         "meta": {"kind": "corpus-argv-kinds"}}
+    out.append(c)
     return out
+
+
+GROUP_GRAPHS = [["a", "b:a"], ["!o", "a:o", "b:a"], ["a", "b:a", "c:a", "d:b,c"], ["a", "b", "c:a,b"], ["x", "!o", "a:o", "b:a,x"]]
+
+
+def _group_cases(rng, tier):
+    """an option added through a group object of a command's parser — get_cmd_parser(p).add_mutually_exclusive_group()
+    / .add_argument_group() — with children and grandchildren below the owner (known finding: not inherited)"""
+    for i in range(10 if tier == "quick" else 40):
+        dstrs = rng.choice(GROUP_GRAPHS)
+        decls = [_o_decl(d) for d in dstrs]
+        owners = [d[0] for d in decls if any(d[0] in e[2] for e in decls)]
+        owner = rng.choice(owners)
+        grp = "mutex" if i % 2 else "plain"
+        s_ = rng.choice(LONGS[:12]) if rng.random() < 0.7 else rng.choice(SHORTS)
+        kind = rng.choice(["flag", "flag", "value", "ivalue", "flagoff", _k("const", None, "7"), _info_kind(rng)])
+        lines = ["new 000 - " + " ".join(enc_str(d) for d in dstrs),
+                 "optg %s %s %s%s %s" % (enc_str(owner), grp, kind, _extras(rng, kind), enc_str(s_))]
+        if rng.random() < 0.5:
+            lines.append("opt %s flag %s" % (enc_str(rng.choice([d[0] for d in decls])), enc_str("--plain")))
+        for name, internal, _, _ in decls:
+            if not internal:
+                lines.append(_parse_line([name] + _use(rng, kind, s_)))
+        lines.append(_parse_line(_use(rng, kind, s_)))
+        yield {"lines": lines, "meta": {"kind": "group-" + grp}}
 
 
 def _c19b_cases():
@@ -1330,9 +1553,12 @@ def gen_cases(rng, tier):
         if r < 0.06:
             yield _gen_single(rng, tier)
             continue
-        stream = ("valid" if r < 0.42 else "required" if r < 0.5 else "shared-dest" if r < 0.6 else "free-positional" if r < 0.72
+        stream = ("valid" if r < 0.37 else "info" if r < 0.42 else "required" if r < 0.5 else "shared-dest" if r < 0.6 else "free-positional" if r < 0.72
                   else "conflict" if r < 0.82 else "malformed" if r < 0.97 else "internal-first")
         yield _gen_case(rng, tier, stream)
+    # last, so that these (known) failures never stand in front of others
+    for c in _group_cases(rng, tier):
+        yield c
     if tier != "quick":
         for c in search_cases(rng, tier):
             yield c
@@ -1415,7 +1641,7 @@ def shrink(case):
     for i, l in enumerate(lines):
         if l.startswith("parse"):
             op, *toks = l.split()
-            if op == "parse2":
+            if op in ("parse2", "parset", "parsev"):
                 yield {"lines": lines[:i] + [" ".join(["parse"] + toks)] + lines[i + 1:], "meta": meta}
             if len(toks) > 2:
                 yield {"lines": lines[:i] + [" ".join([op] + toks[:1])] + lines[i + 1:], "meta": meta}
@@ -1465,19 +1691,33 @@ def tags(case, replies):
         yield "switches:" + m["switches"]
     yield "new:" + replies[0]
     for l, r in zip(case["lines"], replies):
-        if l.startswith("opt "):
-            yield "opt:%s:%s" % (l.split()[2].partition("@")[0].partition("=")[0].rstrip("!"), r)
-            if "!" in l.split()[2].partition("@")[0]:
+        if l.startswith("opt ") or l.startswith("optg "):
+            t = l.split()
+            if t[0] == "optg":
+                yield "opt:via-group:" + t[2]
+                t = [t[0], t[1]] + t[3:]
+            yield "opt:%s:%s" % (t[2].partition("@")[0].partition("=")[0].rstrip("!"), r)
+            if _base(t[2]) in INFO_KINDS and t[1] != "*":
+                yield "opt:info-on-" + ("owner-with-dependents" if any(
+                    dec_str(t[1]) in _o_decl(dec_str(d))[2] for d in case["lines"][0].split()[3:]) else "leaf")
+            if "!" in t[2].partition("@")[0]:
                 yield "opt:required"
-            if l.split()[2].startswith("value="):
+            if t[2].startswith("value="):
                 yield "opt:value-with-default"
-            for x in l.split()[3:]:
+            for x in t[3:]:
                 if x.startswith("+"):
                     yield "opt:kw:" + x[1:]
+        elif l.startswith("lst"):
+            yield "lst:" + ("unchanged" if r == "L:" + "/".join(l.split()[1:]) else "changed")
         elif l.startswith("parse"):
             first = r.split(" | ")[0]
             yield l.split()[0] + ":" + " ".join(first.split()[:3] if first.startswith("err") else first.split()[:1])
-            for t in _tok_tags([dec_str(x) for x in l.split()[1:]]):
+            argv = [dec_str(x) for x in l.split()[1:]]
+            if argv and argv[0].startswith("-") and argv[0] not in ("-", "--", "-h", "--help"):
+                yield "argv:option-first"
+            if first.startswith("err SystemExit 0 V:"):
+                yield "parse:version-printed"
+            for t in _tok_tags(argv):
                 yield t
 
 LEVEL_TEXT = ("Kernel-checked, on the Lean model the driver executes, for all declaration lists, all histories of successful "
@@ -1502,7 +1742,19 @@ LEVEL_TEXT = ("Kernel-checked, on the Lean model the driver executes, for all de
               "required option in the table makes the bare command exit (required_enforced). (6) Default command: first "
               "public command, inserted for every first word that names no parser (default_is_first_public, "
               "default_cmd_partial, command_dispatch); a second parse_args on the list object the first call modified gives the "
-              "same result in both modes (parse_twice); no_log_file_attr, help_if_no_args, single_mode (--no-color only). "
+              "same result in both modes (parse_twice); parse_args works on a private copy — tuple = list, the caller's "
+              "sequence is unchanged (caller_sequence_untouched; `copiesArgs` is read from the source); an argv whose first "
+              "element starts with '-' and is not -h/--help goes to the default command whatever the option is called "
+              "(default_cmd_option_first); no_log_file_attr, help_if_no_args, single_mode (--no-color only). "
+              "(7) Help / version actions: every option string has one owner in a reachable table (table_unique), so an "
+              "option with action='help' / 'version' placed on the ArgParser, the command, a parent or an internal set makes "
+              "`[cmd, s, anything…]` end with status 0 and, for version, its text (info_inherited, info_accepted; no "
+              "`finishable` needed), while a command not below the owner exits 2 (parse_rejects). Value options: "
+              "`[cmd, s, w]` stores int(w) under type=int and exits 2 for a non-integer or a non-member of choices "
+              "(parse_accepts). EXCLUDED from the quantifier: the state after an add_argument call that RAISED (e.g. "
+              "a:; b:a; c:a; `--x` on c, then `--x` on a -> ArgumentError in c after b was already given `--x`, so b accepts "
+              "`--x` although neither b nor an ancestor has it): a failed call is no assignment of an option to a parser; "
+              "both sides answer `poisoned` afterwards and the oracle makes no claim. "
               "Standard options and the first-argument test are regenerated from ak/cli_tools.py on every run. Everything "
               "else — in particular every command line with more than one option, value options without the iff, store_false/"
               "store_const/count without a rejection converse beyond parse_rejects, positionals, '=' forms, clusters other "
@@ -1512,7 +1764,11 @@ LEVEL_TEXT = ("Kernel-checked, on the Lean model the driver executes, for all de
               "option string (exact strings, -xyz, --opt=value, '--', words, required options; declarations with plain ASCII "
               "blanks included; no claim where an abbreviation is involved, about what --no-color does to `color`, about the "
               "caller's list, about the single-command parser).")
-LEVEL_NOTE = ("default_cmd is `_partial`: the code also keeps a first word that names an internal '!' option set (known finding "
+LEVEL_NOTE = ("Known finding group_options_not_inherited: an option added through get_cmd_parser(p).add_mutually_exclusive_group() / "
+              ".add_argument_group() bypasses AkArgumentParser.add_argument and reaches no dependent parser "
+              "(group_option_not_inherited_counterexample is the kernel-evaluated witness on the model's `addViaGroup`; such "
+              "states are outside `Reach`, the oracle reports them, the matcher recognises exactly the cases that are fine once "
+              "group options are read as local). default_cmd is `_partial`: the code also keeps a first word that names an internal '!' option set (known finding "
               "c19b; internal_name_gap and default_cmd_internal_name_counterexample state the code's behaviour, "
               "default_cmd_full_if_public_test the full statement under the two-line repair). keywords of add_argument that do not decide the option's kind (help, metavar, type, choices=None, default=None) are carried as opaque data — neither `declare` nor `addOption` inspects them; argparse's scan of one parser is a "
               "modelled function whose agreement with the real argparse is sampled, not proved; model = Python likewise. "
